@@ -32,8 +32,21 @@ FAULTS = {"connect": ["ConnectError", "ConnectTimeout"], "start_tls": ["ConnectE
 STYLES = ["task", "scope"]
 
 
+REJECTED_SHAPES = ["bad-header-value", "bad-method", "content-length-too-short", "content-length-too-long"]
+
+
 def step_for(scheme, host, tok, shape):
     spec = {"method": "GET", "url": f"{scheme}://{host}/t/{tok}"}
+    # requests that httpcore itself must refuse (LocalProtocolError): a failed request like any other - its slot must come back
+    if shape == "bad-header-value":
+        spec["headers"] = [["x-tok", tok], ["x-bad", "line1\r\nInjected: yes"]]
+        return {"spec": spec, "tok": tok, "mode": "read_all"}
+    if shape == "bad-method":
+        spec["method"] = "GE T"
+        return {"spec": spec, "tok": tok, "mode": "read_all"}
+    if shape in ("content-length-too-short", "content-length-too-long"):
+        spec.update(method="POST", content={"chunks": [b"first-", b"second"]}, headers=[["Content-Length", "5" if shape.endswith("short") else "50"]])
+        return {"spec": spec, "tok": tok, "mode": "read_all"}
     if shape == "post2":
         spec.update(method="POST", content={"chunks": [b"first-", b"second"]})
         return {"spec": spec, "tok": tok, "mode": "read_all"}
@@ -166,6 +179,11 @@ async def epilogue(run):
 
 def classify_trigger(case, world, callers):
     """(trigger, phase) for signatures."""
+    if case["shape"] in REJECTED_SHAPES and not case.get("cancel") and not world.fired_faults:
+        out = callers[0].results[0] if callers[0].results else None
+        if out is not None and out.get("exc") is not None:
+            return "rejected-" + out["exc"]["name"], case["shape"]
+        return "rejected", "not-reached"
     if case.get("cancel"):
         c = callers[0]
         if c.cancel_fired_at is None:
@@ -303,6 +321,11 @@ def enum_cases(tier):
                 for k in points:
                     for style in STYLES:
                         cases.append({"kind": kind, "context": ctx, "shape": shape, "cancel": {"style": style, "at": k}})
+        # requests the client itself refuses (illegal head, Content-Length that does not match the body): no fault, no cancellation
+        for ctx in CONTEXTS:
+            for shape in REJECTED_SHAPES:
+                for runtime in (None, "trio"):
+                    cases.append({"kind": kind, "context": ctx, "shape": shape, "runtime": runtime})
     return cases
 
 
